@@ -16,7 +16,11 @@ def run(ctx):
     traces = rf.replay_all(ctx, jobs)
     for (kind, p), t in zip(jobs, traces):
         ctx.note_case(str(sorted(p.items())), p["cls"] != "none")
-    accepted, norm = rf.validate(ctx, jobs, traces, rf.MECH, rf.INV_C19, runsim.normalise_for_tlc, "C19")
+    # acceptance is decided with TSpec; a rejected trace is re-run alone with TSpecFollow, which follows an implementation
+    # that let an ill-posed problem through so that TLC names the clause that is false there
+    accepted, norm = rf.validate(ctx, jobs, traces, rf.MECH, rf.INV_C19, runsim.normalise_for_tlc, "C19", max_report=8,
+                                 diagnose_spec="TSpecFollow")
+    mesh_guards(ctx, jobs, traces)
     phases = {}
     for n in sorted(accepted):
         p = jobs[n][1]
@@ -35,9 +39,73 @@ def run(ctx):
         rf.canary(ctx, norm, accepted, rf.MECH, rf.INV_C19, mutate, "C19/open-before-reject")
     ctx.cov["rule"] = ("each class of ill-posed input x device x magnitude (1, 1e-3, 1e-6) x output mode is built and solved with "
                        "the real API in a sandbox; non-trivial = an ill-posed instance (controls are well-posed); distinct = distinct inputs")
+    ctx.cov["rule"] += ("; the class 'seed' includes seeds of the SAME device definition computed on another mesh (re-meshed with another "
+                        "max_edge_length / min_points, smoothed further, renumbered; a separate object, the simulated object re-meshed in "
+                        "place after the seed was computed, the seed's own Device object re-meshed in place), guarded from raw site / "
+                        "triangle arrays copied by the harness; controls carry seeds of the simulated mesh (same object, equal device "
+                        "meshed alike, loaded from file) and must run")
     ctx.cov["exhaustive"] = not ctx.quick
+    ctx.assume("a seed whose own Device object (seed.device) is re-meshed in place to a mesh with the SAME number of sites and then "
+               "simulated is not exercised: nothing the Solution object holds still describes the mesh the seed was computed on")
     ctx.assume("time-dependent currents are validated by the code at random sample times; the instances are unbalanced on at "
                "least 60% of the run, narrower imbalance windows are outside what is exercised")
+
+
+def mesh_guards(ctx, jobs, traces):
+    """Vacuity guards of the members "same device definition, another mesh" of the class "seed" and of the controls that
+    carry a seed, decided from the raw arrays the harness copied (never Device.__eq__).  Evaluated after the verdicts: a
+    guard must not turn a reported violation into a machinery failure."""
+    bad, hist = [], {}
+    for (kind, p), t in zip(jobs, traces):
+        how = p.get("how", "")
+        history, _, what = how.partition(":")
+        is_member = p["cls"] == "seed" and history in runbad.MESH_HISTORIES
+        is_control = p["cls"] == "none" and p["variant"] > 0
+        if not (is_member or is_control):
+            continue
+        m = t["info"].get("mesh")
+        tag = f"{p['dev']}/{how}/{p['out']}"
+        if m is None:
+            bad.append(f"{tag}: the seed was never handed to the solver ({t['info']['exc'][:120]})")
+            continue
+        if not m["same_definition"] or m["seed_psi_len"] != m["seed_sites"]:
+            bad.append(f"{tag}: the seed is not a solution of the same device definition on the recorded mesh: {m}")
+        elif not m.get("accepted_without_seed", True):
+            bad.append(f"{tag}: the re-meshed device is not accepted by the solver even without a seed: {m}")
+        elif is_control:
+            if not (m["same_sites"] and m["same_elements"]):
+                bad.append(f"{tag}: the control's seed is not from the simulated mesh: {m}")
+        else:
+            if m["same_sites"] and m["same_elements"]:
+                bad.append(f"{tag}: the seed's mesh IS the simulated mesh (vacuous): {m}")
+            elif what in ("max_edge_length", "min_points") and m["same_count"]:
+                bad.append(f"{tag}: re-meshing did not change the number of sites: {m}")
+            elif (what.startswith("smooth") or what == "renumbered") and not (m["same_count"] and m["max_shift"] > 1e-6):
+                # 1e-6: three orders above rounding of O(1) coordinates, four below the smallest shift one smoothing pass makes here
+                bad.append(f"{tag}: re-meshing did not keep the number of sites / move the sites: {m}")
+            elif history == "seed-device-remeshed-in-place" and not m["seed_device_is_device"]:
+                bad.append(f"{tag}: the simulated device is not the seed's own Device object: {m}")
+        key = ("control " if is_control else "") + how
+        h = hist.setdefault(key, {"instances": 0, "devices": set(), "site_counts": set()})
+        h["instances"] += 1
+        last = t["ev"][-1]
+        left = sorted(n for n, st in last.get("fs", {}).items() if st != "absent") if p["cls"] == "seed" else []
+        o = f"{last.get('result')}" + (f"; left behind: {'+'.join(left)}" if left else "") + (f" [{t['info']['exc'][:60]}]" if t["info"]["exc"] else "")
+        h.setdefault("outcomes", {})
+        h["outcomes"][o] = h["outcomes"].get(o, 0) + 1
+        h["devices"].add(p["dev"])
+        h["site_counts"].add((m["seed_sites"], m["dev_sites"]))
+    ctx.cov["seed_mesh_members"] = {k: {"instances": v["instances"], "devices": sorted(v["devices"]),
+                                        "seed_sites->simulated_sites": sorted(v["site_counts"]), "outcomes": v["outcomes"]}
+                                    for k, v in hist.items()}
+    want = [h for h in runbad.SEED_DIFFS if h.partition(":")[0] in runbad.MESH_HISTORIES] + ["control " + c for c in runbad.CONTROLS[1:]]
+    for k in want:
+        if len(hist.get(k, {"devices": ()})["devices"]) < 2:
+            bad.append(f"{k}: exercised on fewer than 2 devices")
+    if bad:
+        ctx.cov["seed_mesh_guard_failures"] = bad[:20]
+        if not ctx.violations:
+            raise core.MachineryFailure("C19: seed-mesh family is vacuous: " + "; ".join(bad[:5]))
 
 
 def replay(ctx, path):
